@@ -47,7 +47,7 @@ def run_c09(tier):
     def expect_exc(what, res, exc, case, o):
         acc.add("evaluations")
         acc.add("near_misses")
-        if res[0] == "exc" and type(res[1]) is exc:
+        if res[0] == "exc" and isinstance(res[1], exc):
             acc.outcome(f"{exc.__name__}")
             return True
         acc.report(violation("C09", "invalid", f"C09/invalid-lookup/{what}/{'returned' if res[0] == 'ok' else exc_name(res[1])}",
